@@ -11,7 +11,7 @@ pub fn lower_trim(s: &str) -> (r: &str)
 	ensures r@ == norm_text(s@)
 { unimplemented!() }
 // the eight canonical names and the alias are lowercase ASCII without surrounding blanks, so normalisation leaves them alone
-// (a fact about nine constant strings; checked concretely by the Kani harness vk_source_names_normalised)
+// (a fact about nine constant strings; that the literals in core/candles.rs have this form is backed by the source scan of check C18 on every run)
 pub open spec fn canonical(t: Seq<char>) -> bool {
 	t == "close"@ || t == "high"@ || t == "low"@ || t == "open"@ || t == "tp"@ || t == "hl2"@ || t == "volume"@ || t == "volumed_price"@ || t == "hlc3"@
 }
